@@ -206,7 +206,7 @@ class Reply(object):
     def message(self, value):
         if value:
             match = message_esc_pattern.match(value)
-            if match:
+            if match and (not self._code or self._code[0] in '245'):
                 self._message = value[match.end(0):]
                 self.enhanced_status_code = match.group(1)
                 return
